@@ -35,18 +35,6 @@ DFS_AX = [
     ForAll([cm, em, l0, i0], Implies(i0 >= 0, flat(cm, em, l0, i0 + 1) == cat(app(flat(cm, em, l0, i0), at(l0, i0)), dfs(cm, em, at(l0, i0)))), patterns=[flat(cm, em, l0, i0 + 1)]),
     ForAll([pm, cm, em, x], Implies(WFH(pm, cm, em), dfs(cm, em, x) == flat(cm, em, em[cm[x]], ln(em[cm[x]]))), patterns=[MultiPattern(WFH(pm, cm, em), dfs(cm, em, x))]),
 ]
-# termination measures: functions of the heap they are measured in.  Their existence for every acyclic finite graph is lemma K1 / wfE of
-# lemmas/Graph.lean (rank = number of transitive predecessors); heaps are finite.  Stated per heap, so a mutator's two heaps cannot clash.
-hgt = Function('height_in', PAR, T.z, IntSort()); dep = Function('depth_in', PAR, T.z, IntSort()); prk = Function('linkrank_in', REL, T.z, IntSort())
-MEASURE_AX = [
-    ForAll([pm, c], Implies(And(Acyc(pm), c != null, pm[c] != null), And(hgt(pm, c) < hgt(pm, pm[c]), dep(pm, pm[c]) < dep(pm, c))), patterns=[hgt(pm, c)], ),
-    ForAll([pm, c], Implies(And(Acyc(pm), c != null, pm[c] != null), dep(pm, pm[c]) < dep(pm, c)), patterns=[dep(pm, c)]),
-    ForAll([pm, c], And(hgt(pm, c) >= 0, dep(pm, c) >= 0), patterns=[hgt(pm, c)]), ForAll([pm, c], dep(pm, c) >= 0, patterns=[dep(pm, c)]),
-    ForAll([E_, x, a], Implies(And(AcycP(E_), x != null, E_[x][a]), prk(E_, a) < prk(E_, x)), patterns=[MultiPattern(E_[x][a], prk(E_, a))]),
-    ForAll([E_, x], prk(E_, x) >= 0, patterns=[prk(E_, x)]),
-]
-
-
 class GenPlugin(LinkPlugin):
     """generator functions: see the module docstring"""
 
